@@ -42,7 +42,7 @@ ASSUMPTIONS = [
     "the extent and root-relative positions are asserted",
     "chord scaling: x-extent about the reference axis, reference axis and y are asserted; the z part of a chord vector "
     "may either be scaled with it (what the code does) or left alone (what the ScaleX docstring says)",
-    "y-shear amplitudes are kept below 0.4 of the smallest station spacing so that spanwise ordering survives",
+    "y-shear amplitudes are kept below 0.4 of the smallest station spacing (after a preceding span change) so that spanwise ordering survives",
 ]
 
 RTOL = 1e-10
@@ -529,7 +529,9 @@ def verdict_group(desc):
                 if k in ("xshear_cp", "zshear_cp"):
                     cp = cp * c_root
                 elif k == "yshear_cp":
-                    cp = cp * _yshear_amp(m)
+                    # spanwise ordering must survive: the amplitude follows the station spacing AFTER the span change
+                    # that precedes the y-shear in the chain
+                    cp = cp * _yshear_amp(m) * (min(1.0, float(v["span_factor"])) if "span" in act else 1.0)
             else:
                 cp = np.full(int(desc["ncp_default"]), CP_DEFAULT[k])
             target[k] = cp
